@@ -84,7 +84,15 @@ def _gen_sched(rng):
 def generate(rng, tier):
     n = 600 if tier == "quick" else 12000
     m = 80 if tier == "quick" else 1500
-    return list(CORPUS) + SCHED_CORPUS + [_gen(rng) for _ in range(n)] + [_gen_sched(rng) for _ in range(m)]
+    k = 40 if tier == "quick" else 600
+    # calendar delays (DelayFixed accepts dateutil.relativedelta): run on the real driver, judged by the property monitor
+    # only (the Coq model counts integer microseconds; the oracle for "t - delay" is dateutil itself)
+    cal = [{"sched": sc.gen_calendar_link(rng)} for _ in range(k)]
+    return list(CORPUS) + SCHED_CORPUS + [_gen(rng) for _ in range(n)] + [_gen_sched(rng) for _ in range(m)] + cal
+
+
+def model_applies(case):
+    return not ("sched" in case and sc.has_calendar(case["sched"]))
 
 
 def run_impl(case):
@@ -198,6 +206,8 @@ def _expected(case):
 
 
 def monitor(case, obs):
+    if "sched" in case and sc.has_calendar(case["sched"]):
+        return sc.monitor_calendar(case["sched"], obs["sched"])
     if "sched" in case:
         # "the shifted time is both what the driver assumes when scheduling and what is actually requested":
         # the C02 monitor (lagging closure from the documented shifts + observed request times) and C04's verdict
@@ -229,6 +239,8 @@ def monitor(case, obs):
 
 
 def nontrivial(case, obs):
+    if "sched" in case and sc.has_calendar(case["sched"]):
+        return True
     if "sched" in case:
         return any(sum(1 for a in i["chain"] if a[0] == "fixed") >= 2 for c in case["sched"]["comps"] for i in c["inputs"])
     exp = _expected(case)
